@@ -343,6 +343,18 @@ func (g *Gen) genC18(n int) error {
 		s2, _ := g.smallSegForFaults()
 		mf := g.fresh("f")
 		d1, d2 := g.randDrops(g.ndocs[s1]), g.randDrops(g.ndocs[s2])
+		if i%7 == 3 {
+			// nothing survives: the closed channel must still be honoured
+			all := func(n int) string {
+				xs := make([]int, n)
+				for k := range xs {
+					xs[k] = k
+				}
+				return intList(xs)
+			}
+			d1, d2 = all(g.ndocs[s1]), all(g.ndocs[s2])
+			g.st("cancel.zero-survivors")
+		}
 		g.emit("mergecancel %s segs=%s,%s drops=%s|%s max=%d", mf, s1, s2, d1, d2, g.tierN(200, 1000))
 		m := g.fresh("m")
 		g.emit("open %s %s", m, mf)
